@@ -4,6 +4,7 @@
  * this contract, what was passed and returned, so that a caller's postcondition can say "the
  * longitude enters only through AngNormalize" (periodicity in 360 is then inherited, not assumed). */
 /*@ ghost */
+double __CPROVER_uninterpreted_AngNormalize(double);
 #ifndef VERIF_ANGNORM_EXACT
 #define VERIF_ANGNORM_EXACT 4503599627370496.0
 #define VERIF_ANGNORM_WIDE double
@@ -38,3 +39,7 @@ __CPROVER_ensures(!(__CPROVER_return_value == 0 || fabs(__CPROVER_return_value) 
 __CPROVER_ensures(!(fabs(x) < VERIF_ANGNORM_EXACT) ||
                   (x - 360.0 * (VERIF_ANGNORM_WIDE)vm_last_k == __CPROVER_return_value) ||
                   (fabs(__CPROVER_return_value) == 180.0 && fabs(x - 360.0 * (VERIF_ANGNORM_WIDE)vm_last_k) == 180.0))
+/*@ clause post.deterministic src=frame only=replace */
+/* for callers: the result is a function of the argument.  Sound because the enforced frame clause shows that the function
+   reads and writes no state (a stateless C function is deterministic); it cannot itself be stated as an enforced clause. */
+__CPROVER_ensures(VERIF_SAME_D(__CPROVER_return_value, __CPROVER_uninterpreted_AngNormalize(x)))
